@@ -97,6 +97,43 @@ def ptr_add(a, d):
     return None
 
 
+# ---- linear symbolic values: ('lin', ((symbol, coefficient), ...), constant)
+def is_lin(v):
+    return isinstance(v, tuple) and len(v) == 3 and v[0] == 'lin'
+
+
+def lin_sym(name):
+    return ('lin', ((name, 1),), 0)
+
+
+def lin_of(v):
+    if is_lin(v):
+        return v
+    if isinstance(v, int):
+        return ('lin', (), v)
+    return None
+
+
+def lin_add(a, b, sign=1):
+    a, b = lin_of(a), lin_of(b)
+    if a is None or b is None:
+        return None
+    co = dict(a[1])
+    for s_, c in b[1]:
+        co[s_] = co.get(s_, 0) + sign * c
+    co = tuple(sorted((s_, c) for s_, c in co.items() if c))
+    k = a[2] + sign * b[2]
+    return ('lin', co, k) if co else k
+
+
+def lin_mul(a, k):
+    a = lin_of(a)
+    if a is None or not isinstance(k, int):
+        return None
+    co = tuple(sorted((s_, c * k) for s_, c in a[1] if c * k))
+    return ('lin', co, a[2] * k) if co else a[2] * k
+
+
 def root_of(path):
     for i, ch in enumerate(path):
         if ch in '.[-' and i > 0:
@@ -502,7 +539,7 @@ class Engine:
                 if p and self.trackable(p):
                     if old is not TOP and self.hooks.precise_arith(p):
                         d = 1 if '++' in op else -1
-                        new = frozenset(wrap(e + d, x.type) if isinstance(e, int) else (ptr_add(e, d) or e) for e in old)
+                        new = frozenset(wrap(e + d, x.type) if isinstance(e, int) else (lin_add(e, d) if is_lin(e) else (ptr_add(e, d) or e)) for e in old)
                     E.set(p, new)
                     self.hooks.on_assign(E, x, p, new)
                 elif p:
@@ -626,7 +663,12 @@ class Engine:
         out = set()
         for u in a:
             for v in b:
-                if op in ('+', '-') and isinstance(u, tuple) and isinstance(v, int):
+                if (is_lin(u) or is_lin(v)) and op in ('+', '-', '*'):
+                    if op == '*':
+                        r = lin_mul(u, v) if isinstance(v, int) else (lin_mul(v, u) if isinstance(u, int) else None)
+                    else:
+                        r = lin_add(u, v, 1 if op == '+' else -1)
+                elif op in ('+', '-') and isinstance(u, tuple) and isinstance(v, int):
                     r = ptr_add(u, v if op == '+' else -v)
                 elif op == '+' and isinstance(v, tuple) and isinstance(u, int):
                     r = ptr_add(v, u)
